@@ -154,7 +154,7 @@ func runCmd(dir string, env []string, stdin []byte, name string, args ...string)
 }
 
 // buildRepo writes the described objects and references into a fresh bare repository.
-// refs: "name=index" (or "name=@other" for a symbolic ref).
+// refs: "name=index" (or "name=index@other" for a symbolic ref to `other`, which names object `index`).
 func buildRepo(objs []gObj, times []int64, refs []string) (*realRepo, error) {
 	return buildRepoKind(objs, times, refs, true)
 }
@@ -189,11 +189,13 @@ func buildRepoKind(objs []gObj, times []int64, refs []string, bare bool) (*realR
 	var prs []pr
 	for _, r := range refs {
 		kv := strings.SplitN(r, "=", 2)
-		if strings.HasPrefix(kv[1], "@") {
-			os.WriteFile(filepath.Join(gitDir, kv[0]), []byte("ref: "+kv[1][1:]+"\n"), 0o644)
+		if at := strings.Index(kv[1], "@"); at >= 0 {
+			// a symbolic reference: a loose file `ref: <target>`
+			os.MkdirAll(filepath.Dir(filepath.Join(gitDir, kv[0])), 0o755)
+			os.WriteFile(filepath.Join(gitDir, kv[0]), []byte("ref: "+kv[1][at+1:]+"\n"), 0o644)
 			continue
 		}
-		idx, _ := strconv.Atoi(kv[1])
+		idx, _ := refIdx(kv[1])
 		name := kv[0]
 		if h := strings.Index(name, "#"); h >= 0 {
 			j, _ := strconv.Atoi(name[h+1:])
@@ -489,6 +491,10 @@ func genE2ERefs(r *rng, objs []gObj) []string {
 	for j := 0; j < nr; j++ {
 		p := refPrefixes[r.n(len(refPrefixes))]
 		name := p + []string{"main", "dev", "v1", "x", "feature/a", "zeta", "a{b", "main"}[r.n(8)]
+		if r.coin(1, 25) {
+			// Unicode spaces are legal in reference names (only ASCII space and control characters are not)
+			name = p + []string{"rel\u00a0notes", "feature\u3000x", "wide\u2003gap", "nb\u00a0sp/tip"}[r.n(4)]
+		}
 		if r.coin(1, 60) {
 			// a reference name of about 3 KiB (many long components): `for-each-ref` lines and descriptions of any length
 			name = p + strings.Repeat(strings.Repeat("w", 180+r.n(40))+"/", 12+r.n(4)) + "tip"
@@ -527,7 +533,7 @@ func genE2ERefs(r *rng, objs []gObj) []string {
 		if len(refs) > 0 && r.coin(1, 3) {
 			// several references naming the same object (a branch and its remote-tracking
 			// twin, a lightweight tag on a branch tip): only some of them may be selected
-			prev, _ := strconv.Atoi(strings.SplitN(refs[r.n(len(refs))], "=", 2)[1])
+			prev, _ := refIdx(strings.SplitN(refs[r.n(len(refs))], "=", 2)[1])
 			for _, c := range cand {
 				if c == prev {
 					target = prev
@@ -536,8 +542,55 @@ func genE2ERefs(r *rng, objs []gObj) []string {
 		}
 		refs = append(refs, fmt.Sprintf("%s=%d", name, target))
 	}
+	// a tag whose short name git would resolve to something else (`stash` with refs/stash present,
+	// `heads/main` with refs/heads/main, …): descriptions must use names that resolve to the cited object
+	// (seeded change C08n shortened refs/tags/X to X)
+	if r.coin(1, 12) && len(objs) >= 2 {
+		pair := [][2]string{{"refs/stash", "refs/tags/stash"}, {"refs/heads/main", "refs/tags/heads/main"}, {"refs/notes/commits", "refs/tags/notes/commits"}, {"refs/heads/v1", "refs/tags/v1"}}[r.n(4)]
+		ok := true
+		for u2 := range used {
+			for _, n := range pair {
+				if u2 == n || strings.HasPrefix(u2, n+"/") || strings.HasPrefix(n, u2+"/") {
+					ok = false
+				}
+			}
+		}
+		commits := indicesOf(objs, 'c')
+		if ok && len(commits) >= 1 {
+			a := commits[r.n(len(commits))]
+			b := r.n(len(objs))
+			if a != b {
+				used[pair[0]], used[pair[1]] = true, true
+				refs = append(refs, fmt.Sprintf("%s=%d", pair[0], a), fmt.Sprintf("%s=%d", pair[1], b))
+			}
+		}
+	}
+	// a symbolic reference under refs/ (origin/HEAD in every clone; an alias branch): it is a reference like
+	// any other — counted, grouped and walked by ITS OWN name, whether or not its target is selected
+	// (seeded change C01n did not walk symbolic references)
+	if r.coin(1, 4) && len(refs) > 0 {
+		t := strings.SplitN(refs[r.n(len(refs))], "=", 2)
+		name := []string{"refs/heads/alias", "refs/remotes/origin/HEAD", "refs/tags/current", "refs/other/link"}[r.n(4)]
+		ok := !strings.Contains(t[1], "@")
+		for u2 := range used {
+			if u2 == name || strings.HasPrefix(u2, name+"/") || strings.HasPrefix(name, u2+"/") {
+				ok = false
+			}
+		}
+		if ok {
+			refs = append(refs, fmt.Sprintf("%s=%s@%s", name, t[1], t[0]))
+		}
+	}
 	sort.Strings(refs)
 	return refs
+}
+
+// the object index of a reference description ("7" or, for a symbolic reference, "7@refs/heads/main")
+func refIdx(s string) (int, error) {
+	if at := strings.Index(s, "@"); at >= 0 {
+		s = s[:at]
+	}
+	return strconv.Atoi(s)
 }
 
 func refSelected(name string, rule string) bool {
@@ -582,7 +635,7 @@ func genSelection(r *rng, objs []gObj, refs []string) (args []string, roots []in
 				done := false
 				for _, rf := range refs {
 					kv := strings.SplitN(rf, "=", 2)
-					if idx, _ := strconv.Atoi(kv[1]); idx == i {
+					if idx, _ := refIdx(kv[1]); idx == i {
 						args = append(args, kv[0])
 						roots = append(roots, i)
 						done = true
@@ -634,7 +687,7 @@ func genSelection(r *rng, objs []gObj, refs []string) (args []string, roots []in
 	for _, rf := range refs {
 		kv := strings.SplitN(rf, "=", 2)
 		if refSelected(kv[0], rule) {
-			idx, _ := strconv.Atoi(kv[1])
+			idx, _ := refIdx(kv[1])
 			roots = append(roots, idx)
 		}
 	}
@@ -660,7 +713,7 @@ func commitReachableFromRefs(objs []gObj, refs []string, c int) bool {
 	}
 	for _, rf := range refs {
 		kv := strings.SplitN(rf, "=", 2)
-		idx, _ := strconv.Atoi(kv[1])
+		idx, _ := refIdx(kv[1])
 		walk(idx)
 	}
 	return seen[c]
@@ -856,7 +909,7 @@ func init() {
 			refs := genE2ERefs(r, objs)
 			args, roots := genSelection(r, objs, refs)
 			style := []string{"full", "full", "hash", "none"}[r.n(4)]
-			layout := []string{"loose", "loose", "packed", "gc"}[r.n(4)]
+			layout := []string{"loose", "loose", "packed", "gc", "loose", "packed", "gc", "promisor"}[r.n(8)]
 			return []string{encRepo(objs), timesJoin(times), joinOrDash(refs, ","), encArgs(args), intsJoin(roots), style, layout}
 		},
 		exec: func(in []string) []string {
@@ -883,6 +936,19 @@ func init() {
 				runCmd(rr.dir, env, nil, "git", "--git-dir", rr.dir, "repack", "-adq")
 			case "gc":
 				runCmd(rr.dir, env, nil, "git", "--git-dir", rr.dir, "-c", "gc.pruneExpire=never", "gc", "-q")
+			case "promisor":
+				// the layout of a partial clone in which nothing is missing: every object sits in a pack
+				// marked `.promisor` (seeded change C09n listed objects with --exclude-promisor-objects)
+				runCmd(rr.dir, env, nil, "git", "--git-dir", rr.dir, "repack", "-adq")
+				if packs, _ := filepath.Glob(filepath.Join(rr.dir, "objects", "pack", "*.pack")); len(packs) > 0 {
+					for _, pk := range packs {
+						os.WriteFile(strings.TrimSuffix(pk, ".pack")+".promisor", nil, 0o644)
+					}
+					for _, kv := range [][2]string{{"core.repositoryformatversion", "1"}, {"extensions.partialClone", "origin"},
+						{"remote.origin.url", "/nonexistent/origin.git"}, {"remote.origin.promisor", "true"}, {"remote.origin.partialclonefilter", "blob:limit=1g"}} {
+						runCmd(rr.dir, env, nil, "git", "--git-dir", rr.dir, "config", kv[0], kv[1])
+					}
+				}
 			}
 			sargs := append([]string{"--json", "--json-version=1", "--no-progress", "--names=" + in[5]}, substArgs(args, rr)...)
 			run := runSizer(rr.dir, env, sargs...)
